@@ -26,8 +26,9 @@ RULES = {
     "R5": "every _add_observations refuses negative and NaN observations before the first ingestion",
     "R6": "SparseDrugCombo target = logit(clip(obs, 0.01, 0.99))",
     "R7": "row-class predicate table: single-agent sites use count(control) = arity-1, combination sites use = 0",
+    "R8": "nothing reachable from a model's ingestion loads the screen-level single_treatment_effects table (computed from masked rows too)",
 }
-MIN = {"R1": 1, "R2": 3, "R3": 1, "R4": 2, "R5": 3, "R6": 1, "R7": 2}
+MIN = {"R1": 1, "R2": 3, "R3": 1, "R4": 2, "R5": 3, "R6": 1, "R7": 2, "R8": 1}
 TRUSTED = ["resolved call graph is an over-approximation of the dynamic one (typed resolution + name-CHA fallback + "
            "all overriding subclasses); classes chosen by name on the command line are subclasses of the declared bases",
            "numpy comparison semantics: `x >= 0` is False for NaN"]
@@ -680,6 +681,35 @@ def r7(ctx, rule="R7", sites=ROW_CLASS_SITES):
 C04_SITES = [s for s in ROW_CLASS_SITES if s[0] in ("data.create_single_treatment_effect_map", "models.sparse_combo_interaction.SparseDrugComboInteraction._add_observations")]
 
 
+def r8(ctx):
+    """the training path reads observation VALUES only through `.observations` of the (all-observed) data it was handed: the screen-level
+    table `single_treatment_effects` is computed from the parent screen's whole observation column, masked rows included, and a view hands
+    out rows of that table - so nothing reachable from a model's ingestion may load it"""
+    R, T = ctx.R, ctx.T
+    impls = [q for q in R.overrides("batchie.core.BayesianModel", "_add_observations") if not R.funcs[q].is_abstract]
+    impls.append(ctx.fn("core.BayesianModel.add_observations").qname)
+    parent = T.reachable(impls)
+    screen_classes = set(R.subclasses("batchie.data.ScreenBase"))
+    hits = []
+    for q in sorted(parent):
+        f = R.funcs[q]
+        if f.class_q in screen_classes:
+            continue            # the screen classes define the table; reading it there is reported at the caller's load
+        ty = None
+        for n in walk_own(f.node):
+            if isinstance(n, ast.Attribute) and isinstance(n.ctx, ast.Load) and n.attr == "single_treatment_effects":
+                ty = ty or T.typer(q)
+                ts = [t for t in ty.etypes(n.value) if t and t[0] == "inst"]
+                if ts and not any(t[1] in screen_classes for t in ts):
+                    continue
+                hits.append((q, U(n)))
+    for q, what in sorted(set(hits)):
+        chain = " <- ".join(R.funcs[x].site() for x in T.chain(parent, q))
+        ctx.bad("R8", f"{R.funcs[q].site()}::loads `{what}`", f"the training path reads the screen-level single-agent table, which is computed from masked observations too: {chain}")
+    if not hits:
+        ctx.ok("R8", "training-path::no-screen-level-effect-table", f"{len(parent)} functions reachable from {len(impls)} ingestion entry points; none loads `single_treatment_effects`")
+
+
 def r7_c04(ctx):
     """C04 only owns the row-class sites on the training path; the other tabled sites belong to C13.R7 / C20.R3"""
     r7(ctx, sites=C04_SITES)
@@ -693,9 +723,10 @@ def run(ctx):
     r5(ctx)
     r6(ctx)
     r7(ctx)
+    r8(ctx)
 
 
-RULE_FUNCS = [r1, r2, r3, r4, r5, r6, r7_c04]
+RULE_FUNCS = [r1, r2, r3, r4, r5, r6, r7_c04, r8]
 
 
 def _rep(a, b):
@@ -707,6 +738,8 @@ def _rep(a, b):
 
 
 WITNESSES = [
+    ("interaction model reads the screen-level effect table", "batchie.models.sparse_combo_interaction",
+     _rep("        self.single_effect_lookup.update(\n", "        table_of_effects = data.single_treatment_effects\n        self.single_effect_lookup.update(\n"), ["R8"]),
     ("predict reads observations", "batchie.models.sparse_combo", _rep("    Mu = intercept + interaction1 + interaction2\n\n    if viability:", "    Mu = intercept + interaction1 + interaction2 + 0.0 * data.observations\n\n    if viability:"), ["R1"]),
     ("size scorer reads plate observations", "batchie.scoring.size", _rep("scores = {k: plate.size for k, plate in plates.items()}", "scores = {k: plate.size + plate.observations.sum() for k, plate in plates.items()}"), ["R1"]),
     ("mask refusal removed", "batchie.core", _rep("        if not data.observation_mask.all():\n            raise ValueError(\"Cannot add data with masked observations\")\n", ""), ["R2"]),
